@@ -12,7 +12,8 @@ RULE = (
     "seeded random DAGs; a random convex (dependency-closed) group of nodes is wrapped into a nested graph node, "
     "repeatedly to depth 1-3 (at the top level or inside an existing nested graph), with bindings moved to the inner "
     "level (names private to the group), inner select hiding outputs nobody outside needs, and wrapper "
-    "with_inputs/with_outputs renames (the same alpha-renaming is applied to the flat side so names are equal). Every "
+    "with_inputs/with_outputs renames (the same alpha-renaming is applied to the flat side so names are equal; also "
+    "wrappers whose outputs are renamed onto each other's names in one call). Every "
     "(flat, nested) pair is built through the public API, 25% of the time deriving from objects that were already "
     "used; compared: required/optional input sets, returned values on both runners, last-invocation arguments of every "
     "inner function, and both against RefEval; plus pairs whose wrapped nodes mutate a default-valued mutable argument, "
@@ -152,6 +153,30 @@ def compare_pair(ctx, A, B, info, depth_label):
     return True
 
 
+def permuted_outputs_pair(rng):
+    """The wrapper renames its outputs onto each other's names (swap / rotation in ONE with_outputs call); the
+    flat side renames every producer individually, so both sides expose the same names for the same values."""
+    k = rng.randint(2, 3)
+    outs = [f"o{j}" for j in range(k)]
+    pi = {outs[j]: outs[(j + 1) % k] for j in range(k)}
+    inner_nodes = [{"k": "fn", "name": f"f{j}", "fid": f"f{j}", "params": [{"n": "x"}] + ([{"n": outs[j - 1]}] if j and rng.random() < 0.5 else []), "outs": [outs[j]]} for j in range(k)]
+    consumer = {"k": "fn", "name": "h", "fid": "h", "params": [{"n": o} for o in outs], "outs": ["out"]}
+    flat_nodes = copy.deepcopy(inner_nodes)
+    for ns in flat_nodes:
+        ns["rename_out"] = [{ns["outs"][0]: pi[ns["outs"][0]]}]
+        # an inner consumer keeps reading the ORIGINAL value of its producer
+        ren = {p["n"]: pi[p["n"]] for p in ns["params"] if p["n"] in pi}
+        if ren:
+            ns["rename_in"] = [ren]
+    flat = {"name": "g", "nodes": flat_nodes + [copy.deepcopy(consumer)], "bind": {}}
+    sub = {"k": "sub", "name": "box", "prog": {"name": "box", "nodes": copy.deepcopy(inner_nodes), "bind": {}}, "rename_out": [dict(pi)]}
+    cur = sub
+    if rng.random() < 0.4:
+        cur = {"k": "sub", "name": "box2", "prog": {"name": "box2", "nodes": [sub], "bind": {}}}
+    nested = {"name": "g", "nodes": [cur, copy.deepcopy(consumer)], "bind": {}}
+    return flat, nested, {"renames": [pi], "S": [n["name"] for n in inner_nodes], "permuted_outputs": True}
+
+
 def mutable_default_pair(rng):
     """Flat DAG with 1-2 nodes that mutate a default-valued mutable argument in place, and the same program
     with those nodes wrapped (depth 1-2, optionally with a renamed wrapper input; sometimes two wrappers around
@@ -219,6 +244,12 @@ def run(ctx):
         return
     for i in range(n):
         rng = ctx.rng
+        if i % 12 == 3:
+            A, B, info = permuted_outputs_pair(rng)
+            ok = compare_pair(ctx, A, B, info, "permuted-outputs")
+            ctx.obs["permuted_output_pairs"] += 1
+            ctx.case({"s": gen.shape_of(B), "perm": True}, ok)
+            continue
         if i % 6 == 5:
             A, B, src = mutable_default_pair(rng)
             compare_repeat(ctx, A, B, src)
